@@ -34,6 +34,9 @@ def arena_fn(prog, name):
 
 def run(ck, prog, ctx):
     ck.rule("PANIC", "no may-panic callee / Assert terminator in any crate body reachable from the entry points; exemptions are per symbol with a reason (DESIGN 3.1)")
+    ck.rule("INDEX", "a map field whose values are the keys of another map field of the same struct (a name -> id index) is written only where a record is inserted into that other map")
+    from engines import check_secondary_index
+    check_secondary_index(ck, "INDEX", prog, r"^ontology::(builder::Builder|Ontology)$")
     ck.rule("TABLE", "slot-0 constants agree (DESIGN 3.12)")
     ck.rule("DOM", "must-pass-through on zero-test edges (DESIGN 3.6)")
     ck.rule("ROLE", "role provenance at contract sites (DESIGN 3.4)")
